@@ -5,6 +5,7 @@ package vgen
 import (
 	"reflect"
 
+	gpb "github.com/openconfig/gnmi/proto/gnmi"
 	"github.com/openconfig/ygot/ygot"
 	"github.com/openconfig/ygot/ytypes"
 )
@@ -16,7 +17,11 @@ import (
 //gosym:maxpaths=200000
 func H_C16_scalar() {
 	var v interface{}
-	switch symChoose("type", 12) {
+	switch symChoose("type", 13) {
+	case 12: // decimal64 keys are float64 in the GoStruct
+		f := symFloat64("v")
+		symAssume(f == f && f-f == 0) // finite
+		v = f
 	case 0:
 		v = symInt8("v")
 	case 1:
@@ -85,4 +90,33 @@ func H_C16_keymap() {
 		symAssert(back.Interface() == kv, "decoding the key string gives a different key value")
 	}
 	symReach("done")
+}
+
+// H_C16_decimal: decimal64 list keys (float64 in the GoStruct) of a keyed list and of an
+// ordered-by-user keyed list: the key string ygot renders (KeyValueAsString, what
+// TogNMINotifications/Diff/path structs use) addresses the entry again through SetNode
+// and GetNode, and an entry created by SetNode from that path has the original key.
+func H_C16_decimal() {
+	f := symFloat64("d")
+	symAssume(f == f && f-f == 0) // finite
+	ks, err := ygot.KeyValueAsString(f)
+	symAssert(err == nil, "KeyValueAsString fails for a decimal64 key")
+	list := "kd"
+	if symBool("ordered") {
+		list = "okd"
+	}
+	d := &Device{}
+	p := c10Path(c10E("c"), c10K(list, "d", ks), c10E("val"))
+	err = ytypes.SetNode(SchemaTree["Device"], d, p, &gpb.TypedValue{Value: &gpb.TypedValue_StringVal{StringVal: "x"}}, &ytypes.InitMissingElements{})
+	symReach("set")
+	symAssert(err == nil, "SetNode cannot create the entry from the key string ygot renders for a decimal64 key")
+	if list == "kd" {
+		e := d.C.Kd[f]
+		symAssert(len(d.C.Kd) == 1 && e != nil && e.D != nil && *e.D == f, "the created entry has the original decimal64 key")
+	} else {
+		e := d.C.Okd.Get(f)
+		symAssert(d.C.Okd.Len() == 1 && e != nil && e.D != nil && *e.D == f, "the created ordered-list entry has the original decimal64 key")
+	}
+	nodes, err := ytypes.GetNode(SchemaTree["Device"], d, p)
+	symAssert(err == nil && len(nodes) == 1, "GetNode finds the entry again through the same key string")
 }
